@@ -29,7 +29,7 @@ MODELS = {
     "Incr": {
         "module": "mc/MC_Incr.tla", "spec": "MCSpec", "view": "MCView",
         "constants": {"quick": {"MaxOps": 3, "Tier": '"quick"', "Wide": "FALSE"}, "thorough": {"MaxOps": 3, "Tier": '"thorough"', "Wide": "FALSE"}},
-        "always": ["Inv_C05"], "properties": ["Prop_C05", "P_C10"],
+        "always": ["Inv_C05"], "properties": ["Prop_C05", "P_C10", "Prop_Bridge"],
     },
     "Build": {
         "module": "mc/MC_Build.tla", "spec": "BSpec",
